@@ -1,6 +1,7 @@
 """C08 / C09 / C10: thread-local request/response state. See specs/Life.tla."""
 import gc
 import io
+import sys
 import json
 import os
 import random
@@ -11,7 +12,7 @@ from harness.checks import lifelib as L
 
 C09_KINDS = ['plain', 'body', 'form', 'raise', 'nf', 'm405', 'crash', 'json404', 'hdrs', 'badpath', 'badchunk', 'oversize',
              'badchunk_json', 'oversize_json', 'mutq', 'latin', 'badmp_json', 'signed', 'forged', 'stat_s', 'stat_n', 'bigbody', 'rewrite', 'tenant', 'whoami', 'lazy', 'delc_opts', 'delc_plain',
-             'upload_ct', 'upload_bare', 'crashform']
+             'upload_ct', 'upload_bare', 'crashform', 'account', 'about', 'mount', 'stream', 'chunked', 'badcl']
 C09_CONFIG = {'max_body_size': 1000, 'max_memfile_size': 128}
 
 
@@ -221,9 +222,23 @@ def run_c08(chk):
             if n0 is None:
                 _, _, taken0 = L.run_threads([app, app], reqs, [0] * 5000, acc if acc.ok else None, lf)
                 n0 = sum(1 for t in taken0 if t == 0)
-            fine = k in ('rewrite', 'tenant', 'lazy')       # short critical windows (listener dispatch, tenant lookup): sweep every other line
+            fine = k in ('rewrite', 'tenant', 'lazy', 'chunked')       # short critical windows (listener dispatch, tenant lookup): sweep every other line
             for a in range(1, n0 + 1, (1 if fine else 3) if thorough else (2 if fine else max(1, n0 // 36))):
                 execute(reqs, [0] * a + [1] * 5000 + [0] * 5000, line_files=lf, tag='twin')
+        # cold start: the first error pages of a freshly started process, produced concurrently (module-level things that are
+        # loaded on first use are loaded while another thread is already asking for them)
+        import importlib
+        cold = sys.modules.get('ombott.error_render')
+        if cold is not None:
+            for k in (['nf', 'm405', 'crash'] if thorough else ['nf']):
+                reqs = [(k, 'A'), (k, 'B')]
+                importlib.reload(cold)
+                _, _, taken0 = L.run_threads([app, app], reqs, [0] * 5000, acc if acc.ok else None, lf)
+                n0 = sum(1 for t in taken0 if t == 0)
+                for a in range(1, n0 + 1, 1 if thorough else 2):
+                    importlib.reload(cold)
+                    execute(reqs, [0] * a + [1] * 5000 + [0] * 5000, line_files=lf, tag='cold')
+            importlib.reload(cold)
     judge(chk, 'C08', traces, closure_known=False)
     chk.extra['assumptions'] = ['pre-emption happens at accessor calls (quick) and additionally at every source line of ombott/* (thorough)',
                                 'CPython: a thread switch inside one bytecode of the accessors is not modelled']
@@ -481,7 +496,11 @@ def run_c10(chk):
             seq = []
             for i in range(4):
                 ap = a if i % 2 == 0 else b
-                k = rng.choice(L.KINDS + ['badchunk', 'badchunk_json', 'badpath', 'm405', 'mutq', 'mutq'])
+                if run_arr.force_stream and i % 2 == 1:
+                    seq.append((lambda ap=ap, i=i: L.serve(ap, L.environ_for('stream', 'S%d' % i))))
+                    expect.append(solo('stream', 'S%d' % i))
+                    continue
+                k = rng.choice(L.KINDS + ['badchunk', 'badchunk_json', 'badpath', 'm405', 'mutq', 'mutq', 'badcl', 'badcl'])
                 seq.append((lambda ap=ap, k=k, i=i: L.serve(ap, L.environ_for(k, 'S%d' % i))))
                 expect.append(solo(k, 'S%d' % i))
             reqs, apps = [seq], [a]
@@ -613,13 +632,17 @@ def run_c10(chk):
             # the server drains a's streamed body only after b (or the default application) has served a request on the same thread
             other = b if rng.random() < 0.5 else ombott.app
             holder = {}
+            # ('stream', whose later chunks read the request again, is NOT drained late here: on the current tree that is one more
+            #  manifestation of the known finding C10-same-thread -- the store in use is the one initialised last in the thread)
+            lz_kind = 'latin'
+            run_arr.lz_kind = lz_kind
 
             def act():
                 rec = {}
 
                 def sr(status, headers, exc_info=None):
                     rec['status'], rec['headers'] = status, list(headers)
-                it = a(L.environ_for('latin', 'LZ'), sr)
+                it = a(L.environ_for(lz_kind, 'LZ'), sr)
                 mid = L.serve(other, L.environ_for('plain', 'MID')) if other is not ombott.app or getattr(ombott.app, '_verif_routes', False) else L.serve(b, L.environ_for('plain', 'MID'))
                 body = b''.join(it)
                 close = getattr(it, 'close', None)
@@ -649,7 +672,7 @@ def run_c10(chk):
             ok = [expect[i] is None or res[0][i] == expect[i] for i in range(len(expect))]
         elif arr == 'lazy_drain':
             got_a, got_mid = res[0][0]
-            ok = [got_a == solo('latin', 'LZ'), got_mid == solo('plain', 'MID')]
+            ok = [got_a == solo(run_arr.lz_kind, 'LZ'), got_mid == solo('plain', 'MID')]
         elif arr in ('nested', 'copy', 'create_inside'):
             r_out, r_in = res[0][0]
             good = False
@@ -680,11 +703,16 @@ def run_c10(chk):
         return tr
 
     # arrangements inside C10's quantifier that the code as it is supports
+    run_arr.force_stream = False
     run_arr('status_table', [])      # first: nothing has subscribed / set a custom status anywhere in this process yet
     run_arr('listener', [])
     run_arr('shared_environ', [])
     run_arr('custom404', [])
     run_arr('custom_errors_map', [])          # last of the one-shot arrangements: it may change process-wide defaults for good
+    run_arr.force_stream = True          # a streamed body (drained at once) right after the other application served
+    run_arr('alternate', [])
+    run_arr('alternate', [])
+    run_arr.force_stream = False
     for _ in range(40 if thorough else 8):
         run_arr('alternate', [])
         run_arr('create_between', [])
